@@ -5,6 +5,7 @@
   and compared with the internal results on every run (harness/clichecks.py).
 -/
 import TealerModel.Props.C02
+import TealerModel.Lemmas.NumList
 namespace Tealer.C18
 
 structure PathJson where
@@ -53,5 +54,13 @@ def marked (path : List Nat) (blockIdx : Nat) : Bool := path.contains blockIdx
 theorem C18_marks (path : List Nat) (b : Nat) : marked path b = true ↔ b ∈ path := by simp [marked]
 
 example : (toJson (fun _ => []) [[0, 1], [0, 2]]).count = 2 := by decide
+
+/-- BLOCK ANNOTATIONS SHOW THE COMPUTED CONTEXTS: the short notation in which the transaction-context printer writes a block's group
+    indices / sizes (`_repr_num_list`: runs of four or more consecutive numbers as `a..b`) denotes exactly the list that was printed,
+    for every list of numbers - whatever the runs, including a run that starts at 0.  (The model `NumList.repr` is compared with the
+    real `_repr_num_list` on ALL 131072 subsets of 0..16 - every value a context can have - on every run.) -/
+theorem C18_annotation_denotes (l : List Nat) : NumList.denote (NumList.toks l) = l := NumList.denote_toks l
+
+example : NumList.repr [0, 2, 3, 4, 5, 9] = "0 2..5 9" ∧ NumList.denote (NumList.toks [0, 2, 3, 4, 5, 9]) = [0, 2, 3, 4, 5, 9] := by decide +kernel
 
 end Tealer.C18
